@@ -210,10 +210,11 @@ class _PythonFnFactory(object):
     # The lint override is a false positive.
     new_fn = bound_factory(**self._extra_locals)  # pylint:disable=not-callable
 
-    if defaults:
-      new_fn.__defaults__ = defaults
-    if kwdefaults:
-      new_fn.__kwdefaults__ = kwdefaults
+    # Always re-attach: the regenerated def carries placeholder defaults (see
+    # _erase_arg_defaults), which must not survive when the source function's
+    # defaults were cleared after its definition.
+    new_fn.__defaults__ = defaults
+    new_fn.__kwdefaults__ = kwdefaults
 
     return new_fn
 
